@@ -60,6 +60,7 @@ func verifC02Liquidity(op int) {
 	denoms := []string{csStd, "btc", "eth", lpt}
 	params := e.k.GetParams(e.ctx)
 	var call func() error
+	foreign := ""
 	var a1, a2, a3 *big.Int // the three user-stated figures of the message
 	switch op {
 	case 0, 1:
@@ -69,7 +70,16 @@ func verifC02Liquidity(op int) {
 		a1, a2, a3 = msg.MaxToken.Amount.BigInt(), msg.ExactStandardAmt.BigInt(), msg.MinLiquidity.BigInt()
 		call = func() error { _, err := srv.AddLiquidity(ctx, msg); return err }
 	case 2:
-		msg := &types.MsgRemoveLiquidity{WithdrawLiquidity: sdk.Coin{Denom: lpt, Amount: verifIntIn("burn", one, w)},
+		// the coin offered for withdrawal: the pool's share token - or a coin of an unrelated denomination
+		// whose name merely ends in the pool's sequence number ("fake-1" against "lpt-1")
+		wdenom := lpt
+		if verifChoice("foreignVoucher", 2) == 1 {
+			wdenom = "fake" + lpt[len("lpt"):]
+			e.bank.fund(e.sender, wdenom, verifIntIn("ownForeign", zero, w))
+			e.bank.fund(e.other, wdenom, verifIntIn("othersForeign", zero, w))
+			foreign = wdenom
+		}
+		msg := &types.MsgRemoveLiquidity{WithdrawLiquidity: sdk.Coin{Denom: wdenom, Amount: verifIntIn("burn", one, w)},
 			MinToken: verifIntIn("minTok", zero, w), MinStandardAmt: verifIntIn("minStd", zero, w), Deadline: deadline, Sender: e.sender.String()}
 		verifAssume(msg.ValidateBasic() == nil)
 		a1, a2, a3 = msg.WithdrawLiquidity.Amount.BigInt(), msg.MinToken.BigInt(), msg.MinStandardAmt.BigInt()
@@ -94,6 +104,9 @@ func verifC02Liquidity(op int) {
 		side = denoms[4][5:]
 		denoms = denoms[:4]
 	}
+	if foreign != "" {
+		denoms = append(denoms, foreign)
+	}
 	before := e.sheet(accts, denoms)
 	err, _ := e.verifDeliver(call)
 	after := e.sheet(accts, denoms)
@@ -111,6 +124,7 @@ func verifC02Liquidity(op int) {
 		return
 	}
 	verifCover("accepted")
+	verifAssert(foreign == "", "only the pool's own share token withdraws liquidity")
 	// nobody else is touched
 	for _, dn := range denoms {
 		verifAssert(d("other/"+dn).Sign() == 0 && d("holder/"+dn).Sign() == 0 && d("module/"+dn).Sign() == 0, "bystander accounts untouched")
